@@ -34,7 +34,7 @@ ASSUMPTIONS = [
     "Defaults are compared with bitstream.vc2_default_values, the table the documentation is generated from.",
 ]
 
-CFG_NAMES = ["hq_min", "ld_min", "hq_frag1", "hq_frag3", "ld_frag2", "hq_asym", "hq_asym_index", "hq_fields"]
+CFG_NAMES = ["hq_min", "ld_min", "hq_frag1", "hq_frag3", "ld_frag2", "hq_asym", "hq_asym_index", "hq_asym_index_ho_default", "hq_fields"]
 _UNITS = {}
 
 
